@@ -91,7 +91,7 @@ def glueStep (basis : Array W) (who : GlueWho) (realAI : Bool) (st : GlueSt) (to
         match who with
         | .friendly color size =>
           let g : GameRec := { color := color, size := size, positions := st.positions, moves := st.moves }
-          -- the tree with fixes/C07-fpa-script-decline.diff (Impl/FPATotal.lean)
+          -- the tree with fixes/C07-fpa-script-declines.diff (Impl/FPATotal.lean)
           match friendlyGetMoveD st.fpa g p c.chk with
           | .ok (fpa, a) => { st with fpa := fpa, out := glueRender basis realAI true p c a :: st.out }
           | .error _ => { st with out := "panic" :: st.out, stop := true }
